@@ -139,16 +139,27 @@ def rule_p3(repo, col):
     py2pl = repo.func("problog.pypl", "py2pl")
     m = py2pl.module
     n = 0
+    # the spine accumulator: the name V of a loop statement `V = Term(F, <element>, V)`
+    accs = set()
     for node in walk_no_nested(py2pl.node):
-        if isinstance(node, ast.Assign) and isinstance(node.targets[0], ast.Name) and node.targets[0].id == "tail":
+        if isinstance(node, (ast.For, ast.While)):
+            for st in ast.walk(node):
+                if isinstance(st, ast.Assign) and isinstance(st.targets[0], ast.Name) and isinstance(st.value, ast.Call) and dotted(st.value.func) == "Term" \
+                        and st.value.args and norm(st.value.args[-1]) == st.targets[0].id:
+                    accs.add(st.targets[0].id)
+    if len(accs) != 1:
+        raise AnalysisError("py2pl: spine accumulator not found (%s)" % sorted(accs))
+    acc = accs.pop()
+    for node in walk_no_nested(py2pl.node):
+        if isinstance(node, ast.Assign) and isinstance(node.targets[0], ast.Name) and node.targets[0].id == acc:
             v = node.value
             # only the seeds (before the loop): statements directly in an if/else body, not in the for loop
             par = m.parents().get(node)
-            if isinstance(par, ast.For):
+            if isinstance(par, (ast.For, ast.While)):
                 continue
             n += 1
             s = norm(v)
-            s0 = norm(node)
+            s0 = "spine seed " + s
             terminated = False
             if isinstance(v, ast.Call) and dotted(v.func) == "Term":
                 last = v.args[-1]
@@ -169,28 +180,33 @@ def rule_p3(repo, col):
         raise AnalysisError("py2pl: sequence seeds not found")
 
 
-def _dispatch_tags(func, var):
-    tags = []
-    cur = None
-    for st in func.node.body:
-        if isinstance(st, ast.If):
-            cur = st
-            break
-    if cur is None:
-        raise AnalysisError("%s: dispatch chain not found" % func.qualname)
-    final = None
-    while True:
-        t = cur.test
-        if isinstance(t, ast.Compare) and len(t.ops) == 1 and isinstance(t.ops[0], ast.Eq) and norm(t.left) == var and isinstance(t.comparators[0], ast.Constant):
-            tags.append((t.comparators[0].value, cur))
-        else:
-            raise AnalysisError("%s: test not understood: %s" % (func.qualname, norm(t)))
-        if len(cur.orelse) == 1 and isinstance(cur.orelse[0], ast.If):
-            cur = cur.orelse[0]
-            continue
-        final = cur.orelse
-        break
-    return tags, final
+def _dispatch_table(func, var):
+    """Decision table of a tag dispatcher: {tag: [paths]}, and the paths of an unknown tag.  Tags are the string literals the tag variable is
+    compared with (==, in (...)); the shape of the dispatch (elif chain, `or`, membership test, early returns) does not matter."""
+    from .. import dtable
+    paths = dtable.extract(func.node, opaque_loops=True)
+    tags = set()
+    for p in paths:
+        for s_, _, _ in p.conds:
+            try:
+                e = ast.parse(s_, mode="eval").body
+            except SyntaxError:
+                continue
+            if isinstance(e, ast.Compare) and len(e.ops) == 1 and norm(e.left) == var:
+                c = e.comparators[0]
+                if isinstance(e.ops[0], ast.Eq) and isinstance(c, ast.Constant) and isinstance(c.value, str):
+                    tags.add(c.value)
+                elif isinstance(e.ops[0], ast.In) and isinstance(c, (ast.Tuple, ast.List, ast.Set)) and all(isinstance(x, ast.Constant) for x in c.elts):
+                    tags.update(x.value for x in c.elts if isinstance(x.value, str))
+                else:
+                    raise AnalysisError("%s: test not understood: %s" % (func.qualname, s_))
+    if not tags:
+        raise AnalysisError("%s: dispatch on %s not found" % (func.qualname, var))
+    table = {}
+    for t in tags:
+        table[t] = dtable.compatible(paths, [(var, t)])
+    unknown = dtable.compatible(paths, [(var, "<no such tag>")])
+    return table, unknown
 
 
 def rule_p4(repo, col):
@@ -203,27 +219,34 @@ def rule_p4(repo, col):
         f = c.methods.get(name)
         if f is None:
             raise AnalysisError("problog_export.%s missing" % name)
-        tags, final = _dispatch_tags(f, f.params[-1])
-        tables[name] = ([t for t, _ in tags], final, f, dict(tags))
+        table, unknown = _dispatch_table(f, f.params[-1])
+        # a tag is handled when no path for it raises
+        handled = sorted(t for t, ps in table.items() if ps and not any(p.end == "raise" for p in ps))
+        tables[name] = (handled, unknown, f, table)
     ref = set(tables["_convert_input"][0])
-    for name, (tags, final, f, _) in tables.items():
+    for name, (tags, unknown, f, _) in tables.items():
         col.decide("P4", m, f.node, set(tags) == ref, "%s handles the tags %s" % (name, sorted(tags)),
                    "%s handles %s but _convert_input handles %s: a declared argument type works in one direction only" % (name, sorted(tags), sorted(ref)),
                    construct="def %s: tags %s" % (name, sorted(tags)), function="problog_export.%s" % name)
-        raises = [x for x in (final or []) if isinstance(x, ast.Raise)]
-        col.decide("P4", m, f.node, len(raises) == 1, "%s rejects unknown tags" % name, "%s must raise on an unknown type tag" % name,
+        col.decide("P4", m, f.node, bool(unknown) and all(p.end == "raise" for p in unknown), "%s rejects unknown tags" % name, "%s must raise on an unknown type tag" % name,
                    construct="def %s: default" % name, function="problog_export.%s" % name)
     if len(ref) < 6:
         raise AnalysisError("problog_export: fewer than 6 type tags found")
     keys = modes.mode_type_keys(repo)
-    _, _, f, tagmap = tables["_type_to_callmode"]
-    for tag, ifn in sorted(tagmap.items()):
-        r = [x for x in ifn.body if isinstance(x, ast.Return)]
-        if len(r) != 1 or not isinstance(r[0].value, ast.Constant):
-            raise AnalysisError("_type_to_callmode: branch %r not understood" % tag)
-        col.decide("P4", m, r[0], r[0].value.value in keys, "call-mode letter %r for tag %r is a key of mode_types" % (r[0].value.value, tag),
-                   "_type_to_callmode maps %r to %r, which is not a key of engine_builtin.mode_types (KeyError in check_mode)" % (tag, r[0].value.value),
-                   function="problog_export._type_to_callmode")
+    _, _, f, table = tables["_type_to_callmode"]
+    for tag, ps in sorted(table.items()):
+        for p in ps:
+            if p.end == "raise":
+                continue
+            try:
+                v = ast.literal_eval(p.value) if p.end == "return" and p.value else None
+            except (ValueError, SyntaxError):
+                v = None
+            if not isinstance(v, str):
+                raise AnalysisError("_type_to_callmode: branch %r not understood" % tag)
+            col.decide("P4", m, f.node, v in keys, "call-mode letter %r for tag %r is a key of mode_types" % (v, tag),
+                       "_type_to_callmode maps %r to %r, which is not a key of engine_builtin.mode_types (KeyError in check_mode)" % (tag, v),
+                       construct="_type_to_callmode: %r -> %r" % (tag, v), function="problog_export._type_to_callmode")
 
 
 def rule_p5(repo, col):
